@@ -22,7 +22,7 @@ MIN_NONTRIVIAL = {"quick": 60, "thorough": 600}
 ASSUMPTIONS = ["tolerance 1e-10 x scale: same arithmetic up to factor-of-two scalings and summation order "
                "(measured floor 4e-13 end to end)",
                "separability is claimed (and checked) for SEP-mode models with an exchange-like semilocal part only"]
-TOL = 1e-8      # end to end: regularisers (+1e-16, rhocut) are not exactly spin-scaling covariant; floor 3e-10
+TOL_E2E = TOL = 1e-8      # end to end: regularisers (+1e-16, rhocut) are not exactly spin-scaling covariant; floor 3e-10
 TOL_M = 1e-10   # model level (pure arithmetic on identical numbers)
 TOL_L = 1e-8    # layer level: s2/alpha carry +1e-16-type regularisers (floor 1e-10 at rho ~ 1e-6)
 
@@ -107,6 +107,10 @@ def _e2e(case, rec, rng):
     _, _, ksu = gen.build_ks(cfg_u, rng, mol=mol, model=model)
     fam = cfg["family"]
     tagm = "%s,%s,%s" % (fam, cfg["mode"], cfg["model"])
+    # libxc-backed parts (MappedXC2 baselines, semilocal mixing functionals) go through libxc's separate unpolarised and
+    # polarised code paths with its own density thresholds: 5e-10 absolute on |v| = 0.025 observed in the thorough tier
+    # (2.2e-8 relative), so those cases get 1e-7; purely native models keep 1e-8.  Seeded changes give >= 1e-3.
+    TOL = TOL_E2E if (cfg["model"] == "xc1" and cfg.get("mix", "pure") == "pure") else 10 * TOL_E2E
     # --- 1. closed shell through both paths
     dm = gen.psd_dm(mol, rng, 1)
     nr, er, vr = gen.nr_eval(ksr, dm)
